@@ -161,7 +161,7 @@ def main():
         base_fns = None
     undecided = []
     if base_fns is not None:
-        new_fns = [f for f in res.fns if f.addr not in base_fns and '#canary' not in f.addr]
+        new_fns = [f for f in res.fns if f.addr not in base_fns and '#canary' not in f.addr and '#callsig' not in f.addr]
         if new_fns:
             names = set(f.addr.rsplit('::', 1)[-1] for f in new_fns)
             keep = []
